@@ -40,8 +40,16 @@ pub struct Violation {
 }
 
 impl Violation {
+    /// Class preserved by minimisation: property, verdict and — when the engine sets them — the
+    /// signature fields `what` and `site` (sub-class of the verdict, panic site).
     pub fn class(&self) -> String {
-        format!("{}:{}", self.property, self.verdict)
+        let mut s = format!("{}:{}", self.property, self.verdict);
+        for k in ["what", "site"] {
+            if let Some(v) = self.sig.get(k) {
+                s.push_str(&format!(":{}", v));
+            }
+        }
+        s
     }
     pub fn sig_string(&self) -> String {
         let mut s = format!("{}:{}", self.property, self.verdict);
